@@ -102,6 +102,45 @@ def build_product(tier):
     return cases
 
 
+def build_paths(states, edges, tier):
+    """Every path Sync ; a2 (quick: a2 a Sync) and Sync ; a2 ; Sync (thorough) of the TLC graph that starts in an initial
+    state with an accepted Sync.  Only the first state is concretised by hand-written text: every later step runs on the
+    files the implementation itself produced, and Edit actions rewrite one file by hand in between."""
+    adj = {}
+    for src, dst, name in edges:
+        adj.setdefault(src, []).append((name, dst))
+    inits = [i for i, s in states.items() if not s["rejected"] and not any(s["report"].values())]
+    seen0 = set()
+    out = []
+    for i in sorted(inits, key=lambda i: sorted(states[i]["st"].items())):
+        key0 = tuple(sorted(states[i]["st"].items()))
+        if key0 in seen0:
+            continue
+        seen0.add(key0)
+        for n1, d1 in sorted(adj.get(i, [])):
+            a1 = tl.parse_action(n1)
+            if a1["kind"] != "Sync" or states[d1]["rejected"]:
+                continue
+            for n2, d2 in sorted(adj.get(d1, [])):
+                a2 = tl.parse_action(n2)
+                steps2 = [(a1, states[d1]), (a2, states[d2])]
+                if a2["kind"] == "Sync":
+                    out.append({"part": "path", "pre": states[i]["st"], "steps": steps2})
+                if tier != "thorough":
+                    continue
+                for n3, d3 in sorted(adj.get(d2, [])):
+                    a3 = tl.parse_action(n3)
+                    if a3["kind"] == "Sync":
+                        out.append({"part": "path", "pre": states[i]["st"], "steps": steps2 + [(a3, states[d3])]})
+    return out
+
+
+def act_str(act):
+    if act["kind"] == "Sync":
+        return "Sync(%s,{%s})" % (act["truth"], "".join(act["targets"]))
+    return "Edit(%s,%s)" % (act["file"], act["version"])
+
+
 class _Space(core.Space):
     def __init__(self, cases):
         self.cases = cases
@@ -146,7 +185,9 @@ class C09(core.Check):
                 cases.append({"part": "model", "pre": pre, "action": act, "post": states[dst]["st"],
                               "report": states[dst]["report"], "rejected": states[dst]["rejected"]})
             self._model_cases = len(cases)
-            self._cases = cases + build_product(self.tier)
+            paths = build_paths(states, edges, self.tier)
+            self._path_cases = len(paths)
+            self._cases = cases + paths + build_product(self.tier)
         return _Space(self._cases)
 
     def _root(self):
@@ -161,6 +202,8 @@ class C09(core.Check):
     def run_case(self, case):
         if case["part"] == "model":
             return self.run_model(case)
+        if case["part"] == "path":
+            return self.run_path(case)
         return self.run_product(case)
 
     # ------------------------------------------------------------------ E3 replay
@@ -198,6 +241,45 @@ class C09(core.Check):
                     sites.append(site(bool(rp.get(fn, False)) == changed, dict(base, field="report_vs_bytes", file=f, role=role),
                                       fail="report_untruthful", reported=rp.get(fn), bytes_changed=changed))
         return sites, [pre_s, act_s], [pre_s, act_s, [s["ok"] for s in sites]], {"model_transitions_replayed": 1}
+
+    # ------------------------------------------------------------------ E3 replay of paths (states carried by the real files)
+    def run_path(self, case):
+        P = pj.Project(self._root())
+        for f, val in case["pre"].items():
+            k = tl.KIND_OF[f]
+            st = GAMMA[val]
+            P.write(k, None if st == "missing" else pj.prestate_text(k, st, "v1"))
+        pre_s = ",".join("%s=%s" % (f, case["pre"][f]) for f in "CFA")
+        path_s = ";".join(act_str(a) for a, _ in case["steps"])
+        sites = []
+        replayed = 0
+        for n, (act, post) in enumerate(case["steps"]):
+            base = {"part": "path", "pre": pre_s, "path": path_s, "step": n}
+            if act["kind"] == "Edit":
+                k = tl.KIND_OF[act["file"]]
+                P.write(k, pj.prestate_text(k, GAMMA[act["version"]], "v1"))
+                continue
+            truth = tl.KIND_OF[act["truth"]]
+            before = {k: P.read(k) for k in pj.KINDS}
+            exc, rep, out = P.sync(truth, [tl.KIND_OF[k] for k in act["targets"]], "api")
+            replayed += 1
+            rejected = exc is not None
+            sites.append(site(rejected == post["rejected"], dict(base, field="accepted_or_rejected", want_rejected=post["rejected"]),
+                              fail="outcome", got_rejected=rejected, **(core.exc_obs(exc) if exc is not None else {})))
+            diverged = rejected != post["rejected"]
+            for f in "CFA":
+                k = tl.KIND_OF[f]
+                got = pj.classify(k, P.read(k), P.name_path(k))
+                got = {"v1": "D1", "v2": "D2"}.get(got, got)
+                role = "truth" if f == act["truth"] else ("target" if f in act["targets"] else "bystander")
+                ok = got == post["st"][f]
+                diverged = diverged or not ok
+                sites.append(site(ok, dict(base, field="state", file=f, role=role, want=post["st"][f]), fail="abstract_state", got=got))
+                if n > 0 and role == "bystander":
+                    sites.append(site(P.read(k) == before[k], dict(base, field="bystander_bytes", file=f), fail="bystander_changed"))
+            if diverged:  # the files no longer stand for the model state: the rest of the path is not a behaviour of the model
+                break
+        return sites, [pre_s, path_s], [pre_s, path_s, [s["ok"] for s in sites]], {"model_path_steps_replayed": replayed, "model_paths_replayed": 1}
 
     # ------------------------------------------------------------------ E1 product
     def run_product(self, case):
@@ -279,7 +361,9 @@ class C09(core.Check):
                  "tlc_summary": self._tlc["summary"],
                  "model": "models/SyncProtocol.tla (TLC: invariants TypeOK, ReportTruthful; property AllSyncProps hold)",
                  "sync_transitions_distinct_by_prestate_and_action": self._model_cases,
-                 "product_cases": len(sp) - self._model_cases}
+                 "model_paths_replayed_on_real_files": agg.extra.get("model_paths_replayed", 0),
+                 "model_path_sync_steps_replayed": agg.extra.get("model_path_steps_replayed", 0),
+                 "product_cases": len(sp) - self._model_cases - self._path_cases}
         return agg, extra
 
 
